@@ -40,6 +40,39 @@ Proof. destruct e, sg, r; reflexivity. Qed.
 Lemma flag_rev e sg r : negb (N.land (flagsN e sg r) F_REV =? 0) = r.
 Proof. destruct e, sg, r; reflexivity. Qed.
 
+(* ---------------- TDigestMut::make ---------------- *)
+Lemma make_ok k rv mn mx cs cw buf : (k <? MINK) = false -> (cs <> [] \/ buf <> []) ->
+  tdb_make k rv mn mx cs cw buf = Ok (mkTdb k rv mn mx cs cw buf).
+Proof.
+  intros Hk Hne. unfold tdb_make. rewrite Hk. destruct cs as [|c cs]; [|reflexivity]. destruct buf as [|b buf]; [|reflexivity].
+  destruct Hne; congruence.
+Qed.
+
+Lemma make_new k rv mn mx cw : (k <? MINK) = false -> tdb_make k rv mn mx [] cw [] = Ok (mkTdb k rv PINF NINF [] cw []).
+Proof. intros Hk. unfold tdb_make. rewrite Hk. reflexivity. Qed.
+
+Lemma make_ns k rv mn mx cs cw buf : (k <? MINK) = false -> tdb_make k rv mn mx cs cw buf <> Stuck.
+Proof. intros Hk. unfold tdb_make. rewrite Hk. destruct cs, buf; discriminate. Qed.
+
+Lemma make_inv k rv mn mx cs cw buf s : tdb_make k rv mn mx cs cw buf = Ok s ->
+  MINK <= k /\ b_k s = k /\ b_rev s = rv /\ b_cs s = cs /\ b_cw s = cw /\ b_buf s = buf /\
+  ((cs = [] /\ buf = [] /\ b_min s = PINF /\ b_max s = NINF) \/ ((cs <> [] \/ buf <> []) /\ b_min s = mn /\ b_max s = mx)).
+Proof.
+  unfold tdb_make. destruct (N.ltb_spec k MINK) as [|Hk]; [discriminate|].
+  destruct cs as [|c cs]; [destruct buf as [|b buf]|]; intros E; injection E; intros <-;
+    cbn [b_k b_rev b_min b_max b_cs b_cw b_buf]; repeat split; auto.
+  - right. split; [right; discriminate|auto].
+  - right. split; [left; discriminate|auto].
+Qed.
+
+Definition no_items_b (cs : list (N * N)) (buf : list N) : bool := match cs, buf with [], [] => true | _, _ => false end.
+Lemma make_eq k rv mn mx cs cw buf s : tdb_make k rv mn mx cs cw buf = Ok s ->
+  MINK <= k /\ s = mkTdb k rv (if no_items_b cs buf then PINF else mn) (if no_items_b cs buf then NINF else mx) cs cw buf.
+Proof.
+  unfold tdb_make. destruct (N.ltb_spec k MINK) as [|Hk]; [discriminate|].
+  destruct cs as [|c cs]; [destruct buf as [|b buf]|]; intros E; split; auto; cbn [no_items_b]; congruence.
+Qed.
+
 (* ---------------- serializable states ---------------- *)
 Definition centroid_ok (c : N * N) : Prop := fst c < P64 /\ finite_ok (fst c) = true /\ 1 <= snd c /\ snd c < P64.
 
@@ -51,8 +84,7 @@ Record wfb (s : tdb) : Prop := {
   wb_cw : b_cw s = sumwN (b_cs s) /\ b_cw s < P64;
   wb_min : b_min s < P64 /\ is_nan64 (b_min s) = false;
   wb_max : b_max s < P64 /\ is_nan64 (b_max s) = false;
-  wb_empty : b_cs s = [] -> b_min s = PINF /\ b_max s = NINF /\ b_rev s = false;
-  wb_single : b_cw s = 1 -> b_cs s = [(b_min s, 1)] /\ b_max s = b_min s
+  wb_empty : b_cs s = [] -> b_min s = PINF /\ b_max s = NINF /\ b_rev s = false
 }.
 
 Lemma sumwN_cons c cs : sumwN (c :: cs) = snd c + sumwN cs.
@@ -91,40 +123,45 @@ Ltac rd1 := rewrite rd_le_byte; cbn [obind fst snd].
 
 Theorem tdb_roundtrip s : wfb s -> tdb_dec false (tdb_enc s) = Ok s.
 Proof.
-  intros [[Hk1 Hk2] Hbuf Hcs Hn [Hcw Hcwb] [Hmin Hminn] [Hmax Hmaxn] Hempty Hsingle].
+  intros [[Hk1 Hk2] Hbuf Hcs Hn [Hcw Hcwb] [Hmin Hminn] [Hmax Hmaxn] Hempty].
   destruct s as [k rv mn mx cs cw buf]. cbn [b_k b_rev b_min b_max b_cs b_cw b_buf] in *. subst buf.
-  unfold tdb_enc, enc_flags, tdb_is_empty, tdb_is_single, tdb_total.
-  cbn [b_k b_rev b_min b_max b_cs b_cw b_buf length].
-  replace (cw + N.of_nat 0) with cw by lia.
+  unfold tdb_enc, enc_flags.
   assert (HM : MINK = 10) by reflexivity.
   destruct cs as [|c0 cs'].
   - (* empty *)
     destruct (Hempty eq_refl) as (-> & -> & ->). unfold sumwN in Hcw. cbn [fold_right] in Hcw. subst cw.
-    change (0 <=? 1) with true. change (0 =? 1) with false. cbn [app]. unfold tdb_dec.
+    unfold tdb_is_empty, tdb_is_single, tdb_total. cbn [b_k b_rev b_min b_max b_cs b_cw b_buf length].
+    change (0 + N.of_nat 0 =? 1) with false. cbn [andb orb]. cbn [app]. unfold tdb_dec.
     do 3 rd1. rewrite !N.eqb_refl. cbn [negb].
     rewrite rd_le_app by (rewrite p2; lia). cbn [obind fst snd].
     replace (k <? MINK) with false by lia.
     rd1. flag_eval. cbn [orb]. rewrite N.eqb_refl. cbn [negb].
     rewrite rd_le_app by (rewrite p2; lia). cbn [obind fst snd].
-    reflexivity.
-  - destruct (N.eqb_spec cw 1) as [E1|E1].
-    + (* single value *)
-      destruct (Hsingle E1) as [Ecs Emx]. inversion Ecs; subst c0 cs'. subst mx. clear Hcw. subst cw.
-      change (1 <=? 1) with true. destruct rv; cbn [app]; unfold tdb_dec.
+    apply make_new. apply N.ltb_ge. lia.
+  - replace (tdb_is_empty (mkTdb k rv mn mx (c0 :: cs') cw [])) with false by reflexivity. cbn [orb].
+    destruct (tdb_is_single (mkTdb k rv mn mx (c0 :: cs') cw [])) eqn:Es;
+      cbn [b_k b_rev b_min b_max b_cs b_cw b_buf].
+    + (* single value: the one sample is min, max and the centroid *)
+      unfold tdb_is_single, tdb_total in Es. cbn [b_min b_max b_cs b_cw b_buf length] in Es.
+      apply andb_prop in Es as [Es E3]. apply andb_prop in Es as [E1 E2].
+      apply N.eqb_eq in E1, E2, E3. replace (cw + N.of_nat 0) with cw in E1 by lia. subst mx.
+      assert (Hone : cs' = [] /\ snd c0 = 1).
+      { inversion Hcs as [|? ? (_ & _ & Hw & _) Hall']; subst. rewrite sumwN_cons in *.
+        destruct cs' as [|c1 cs''].
+        - unfold sumwN in *. cbn [fold_right] in *. split; [reflexivity|lia].
+        - inversion Hall' as [|? ? (_ & _ & Hw1 & _) _]; subst. rewrite sumwN_cons in *. lia. }
+      destruct Hone as [-> Hw0]. destruct c0 as [m0 w0]. cbn [fst snd] in *. subst m0 w0. subst cw.
+      destruct rv; cbn [app]; unfold tdb_dec.
       all: do 3 rd1; rewrite !N.eqb_refl; cbn [negb].
       all: rewrite rd_le_app by (rewrite p2; lia); cbn [obind fst snd].
       all: replace (k <? MINK) with false by lia.
       all: rd1; flag_eval; cbn [orb]; rewrite N.eqb_refl; cbn [negb].
       all: rewrite rd_le_app by (rewrite p2; lia); cbn [obind fst snd].
       all: unfold rd_float_le; rewrite (app_nil_end (le_bytes 8 mn)); rewrite rd_le_app by (rewrite p8; lia); cbn [obind fst snd].
-      all: inversion Hcs as [|? ? (_ & Hf & _) _]; subst; cbn [fst] in Hf; rewrite Hf; cbn [negb]; reflexivity.
-    + (* general form *)
-      assert (Hc2 : 2 <= cw).
-      { inversion Hcs as [|? ? (_ & _ & Hw & _) Hall']; subst. rewrite sumwN_cons in *.
-        destruct cs' as [|c1 cs''].
-        - unfold sumwN in *. cbn [fold_right] in *. lia.
-        - inversion Hall' as [|? ? (_ & _ & Hw1 & _) _]; subst. rewrite sumwN_cons in *. lia. }
-      replace (cw <=? 1) with false by lia. destruct rv; cbn [app]; unfold tdb_dec.
+      all: inversion Hcs as [|? ? (_ & Hf & _) _]; subst; cbn [fst] in Hf; rewrite Hf; cbn [negb].
+      all: apply make_ok; [apply N.ltb_ge; lia|left; discriminate].
+    + (* general form (also for a one-sample digest whose min, max and centroid disagree) *)
+      destruct rv; cbn [app]; unfold tdb_dec.
       all: do 3 rd1; rewrite !N.eqb_refl; cbn [negb].
       all: rewrite rd_le_app by (rewrite p2; lia); cbn [obind fst snd].
       all: replace (k <? MINK) with false by lia.
@@ -142,7 +179,7 @@ Proof.
       all: rewrite read_centroids_flat by (auto; lia); cbn [obind]; cbv beta iota.
       all: replace (U64MAX <? 0 + sumwN (c0 :: cs') + 0) with false by (unfold U64MAX, P64 in *; lia).
       all: change (N.to_nat 0) with 0%nat; cbn [read_values obind fst snd].
-      all: replace (0 + sumwN (c0 :: cs')) with cw by lia; reflexivity.
+      all: replace (0 + sumwN (c0 :: cs')) with cw by lia; apply make_ok; [apply N.ltb_ge; lia|left; discriminate].
 Qed.
 
 Lemma tdb_reserialize s s' : wfb s -> tdb_dec false (tdb_enc s) = Ok s' -> tdb_enc s' = tdb_enc s.
@@ -171,7 +208,8 @@ Ltac ns :=
     | progress cbv zeta
     | apply rd_le_ns | apply rd_be_ns | apply rd_float_ns
     | apply obind_ns; [|intros ?]
-    | match goal with |- (if ?c then _ else _) <> Stuck => destruct c end
+    | apply make_ns; assumption
+    | match goal with |- (if ?c then _ else _) <> Stuck => destruct c eqn:? end
     | match goal with |- (match ?p with _ => _ end) <> Stuck => destruct p end ].
 
 Lemma read_centroids_ns f : forall n bs cw, read_centroids f n bs cw <> Stuck.
@@ -271,6 +309,18 @@ Record shaped (s : tdb) (inlen : nat) : Prop := {
   sh_input : (8 * length (b_cs s) + 4 * length (b_buf s) <= inlen)%nat   (* every item was present in the input *)
 }.
 
+Lemma shaped_of_make k rv mn mx cs cw buf s inlen : tdb_make k rv mn mx cs cw buf = Ok s ->
+  Forall (fun c => value_ok (fst c) /\ 1 <= snd c) cs -> Forall value_ok buf -> cw = sumwN cs ->
+  cw + N.of_nat (length buf) <= U64MAX -> is_nan64 mn = false -> is_nan64 mx = false ->
+  (8 * length cs + 4 * length buf <= inlen)%nat -> shaped s inlen.
+Proof.
+  intros HM Fc Fb Ecw' Htot Hmn Hmx Hlen. apply make_inv in HM as (Hk & Ek & Erv & Ecs & Ecw & Ebuf & Hmm).
+  constructor; unfold tdb_total, tdb_is_empty; rewrite ?Ek, ?Ecs, ?Ecw, ?Ebuf; auto.
+  destruct Hmm as [(A & B & _)|(Hne & Emn & Emx)].
+  - subst cs buf. rewrite A, B. discriminate.
+  - intros _. rewrite Emn, Emx. auto.
+Qed.
+
 Theorem dec_compat_shape bs s : tdb_dec_compat bs = Ok s -> shaped s (length bs).
 Proof.
   unfold tdb_dec_compat.
@@ -285,10 +335,9 @@ Proof.
     destruct (rd_be 4 r3) as [[n r4]| |] eqn:E4; cbn [obind fst snd]; try discriminate.
     destruct (_ <? _); [discriminate|].
     destruct (read_compat false (N.to_nat n) r4 0) as [[cs cw]| |] eqn:E5; cbn [obind fst snd]; try discriminate.
-    intros HH; inversion HH; subst. apply read_compat_shape in E5 as (L & S1 & F & B & Len).
-    apply rd_be_len in E1, E2, E3, E4.
-    constructor; unfold tdb_total, tdb_is_empty; cbn [b_k b_cs b_buf b_cw b_min b_max length]; auto; try lia.
-    all: try (specialize (B ltac:(unfold U64MAX; lia)); lia).
+    intros HH. apply read_compat_shape in E5 as (L & S1 & F & B & Len).
+    apply rd_be_len in E1, E2, E3, E4. specialize (B ltac:(unfold U64MAX; lia)).
+    apply (shaped_of_make _ _ _ _ _ _ _ _ _ HH); cbn [length]; auto; lia.
   - destruct (ty =? COMPAT_FLOAT); [|discriminate].
     destruct (rd_be 8 r0) as [[mn r1]| |] eqn:E1; cbn [obind fst snd]; try discriminate.
     destruct (rd_be 8 r1) as [[mx r2]| |] eqn:E2; cbn [obind fst snd]; try discriminate.
@@ -298,10 +347,9 @@ Proof.
     destruct (rd_be 4 r3) as [[un r4]| |] eqn:E4; cbn [obind fst snd]; try discriminate.
     destruct (rd_be 2 r4) as [[n r5]| |] eqn:E6; cbn [obind fst snd]; try discriminate.
     destruct (read_compat true (N.to_nat n) r5 0) as [[cs cw]| |] eqn:E5; cbn [obind fst snd]; try discriminate.
-    intros HH; inversion HH; subst. apply read_compat_shape in E5 as (L & S1 & F & B & Len).
-    apply rd_be_len in E1, E2, E3, E4, E6.
-    constructor; unfold tdb_total, tdb_is_empty; cbn [b_k b_cs b_buf b_cw b_min b_max length]; auto; try lia.
-    all: try (specialize (B ltac:(unfold U64MAX; lia)); lia).
+    intros HH. apply read_compat_shape in E5 as (L & S1 & F & B & Len).
+    apply rd_be_len in E1, E2, E3, E4, E6. specialize (B ltac:(unfold U64MAX; lia)).
+    apply (shaped_of_make _ _ _ _ _ _ _ _ _ HH); cbn [length]; auto; lia.
 Qed.
 
 Theorem tdb_dec_shape f bs s : tdb_dec f bs = Ok s -> shaped s (length bs).
@@ -320,15 +368,16 @@ Proof.
   destruct (rd_le 2 r4) as [[un r5]| |] eqn:E5; cbn [obind fst snd]; try discriminate.
   apply rd_le_len in E0, E1, E2, E3, E4, E5.
   destruct (negb (N.land flags F_EMPTY =? 0)).
-  { intros HH; inversion HH; subst. constructor; cbn; auto; try lia; try discriminate. }
+  { intros HH. apply (shaped_of_make _ _ _ _ _ _ _ _ _ HH); cbn [length]; auto; try reflexivity; try lia.
+    all: try (unfold sumwN, U64MAX; cbn; lia). }
   destruct (negb (N.land flags F_SINGLE =? 0)).
   { destruct (rd_float_le f r5) as [[v r6]| |] eqn:E6; cbn [obind fst snd]; try discriminate.
     destruct (finite_ok v) eqn:Ef; cbn [negb]; [|discriminate].
-    intros HH; inversion HH; subst. apply rd_float_len in E6.
+    intros HH. apply rd_float_len in E6.
     assert (Hlen6 : (4 <= length r5)%nat) by (destruct f; lia).
-    unfold finite_ok in Ef. apply andb_prop in Ef as [Ef1 Ef2]. apply negb_true_iff in Ef1.
-    constructor; unfold tdb_total, tdb_is_empty, sumwN; cbn [b_k b_cs b_buf b_cw b_min b_max length fold_right fst snd]; auto; try lia.
-    - constructor; [|constructor]. split; [unfold value_ok, finite_ok; cbn [fst]; rewrite Ef1, Ef2; reflexivity|cbn; lia].
+    assert (Ef' := Ef). unfold finite_ok in Ef'. apply andb_prop in Ef' as [Ef1 Ef2]. apply negb_true_iff in Ef1.
+    apply (shaped_of_make _ _ _ _ _ _ _ _ _ HH); cbn [length]; auto; try lia.
+    - constructor; [|constructor]. split; [exact Ef|cbn [snd]; lia].
     - unfold U64MAX. lia. }
   destruct (rd_le 4 r5) as [[nc r6]| |] eqn:E6; cbn [obind fst snd]; try discriminate.
   destruct (rd_le 4 r6) as [[nb r7]| |] eqn:E7; cbn [obind fst snd]; try discriminate.
@@ -339,22 +388,117 @@ Proof.
   destruct (read_centroids f (N.to_nat nc) r9 0) as [[[cs cw] rest]| |] eqn:E10; cbn [obind]; try discriminate.
   destruct (N.ltb_spec U64MAX (cw + nb)); [discriminate|].
   destruct (read_values f (N.to_nat nb) rest) as [[vs rest']| |] eqn:E11; cbn [obind fst snd]; try discriminate.
-  intros HH; inversion HH; subst.
+  intros HH.
   apply read_centroids_shape in E10 as (L & S1 & F & B & Len).
   apply read_values_shape in E11 as (L2 & F2 & Len2).
   apply rd_le_len in E6, E7. apply rd_float_len in E8, E9.
-  constructor; unfold tdb_total, tdb_is_empty; cbn [b_k b_cs b_buf b_cw b_min b_max]; auto; try lia.
+  apply (shaped_of_make _ _ _ _ _ _ _ _ _ HH); auto; try lia.
   destruct f; lia.
 Qed.
 
-(* the sizes the readers hand to Vec::with_capacity are covered by the input *)
-Theorem tdb_requests_linear f bs : tdb_requests f bs <= 2 * N.of_nat (length bs).
+(* ---------------- C14: what the readers ask the allocator for ---------------- *)
+(* the instrumented readers have the outcome of the plain ones *)
+Ltac lockstep :=
+  repeat first
+    [ reflexivity
+    | match goal with
+      | |- context [obind2 ?x _] => destruct x as [[? ?]| |]; cbn [obind obind2 fst snd with_req]
+      | |- context [if ?c then _ else _] => destruct c
+      end ].
+
+Lemma tdb_dec_compat_req_outcome bs : fst (tdb_dec_compat_req bs) = tdb_dec_compat bs.
+Proof. unfold tdb_dec_compat_req, tdb_dec_compat. cbv zeta. lockstep. Qed.
+
+Theorem tdb_dec_req_outcome f bs : fst (tdb_dec_req f bs) = tdb_dec f bs.
+Proof. unfold tdb_dec_req, tdb_dec. cbv zeta. lockstep; apply tdb_dec_compat_req_outcome. Qed.
+
+(* the image-sized requests are covered by the input: at most 2 bytes per input byte, plus the
+   16 * 65535 bytes the reference float reader may reserve for its u16 count *)
+Ltac reqstep :=
+  match goal with
+  | |- context [obind2 (rd_le ?n ?X) _] =>
+      let E := fresh "E" in destruct (rd_le n X) as [[? ?]| |] eqn:E; [apply rd_le_len in E|idtac|idtac]; cbn [obind2 fst snd]
+  | |- context [obind2 (rd_be ?n ?X) _] =>
+      let E := fresh "E" in destruct (rd_be n X) as [[? ?]| |] eqn:E; [apply rd_be_len in E|idtac|idtac]; cbn [obind2 fst snd]
+  | |- context [obind2 (rd_float_le ?f ?X) _] =>
+      let E := fresh "E" in destruct (rd_float_le f X) as [[? ?]| |] eqn:E; [apply rd_float_len in E|idtac|idtac]; cbn [obind2 fst snd]
+  | |- context [if ?c then _ else _] => let E := fresh "C" in destruct c eqn:E
+  end.
+
+Lemma bytes_ok_skipn : forall n l, bytes_ok l = true -> bytes_ok (skipn n l) = true.
 Proof.
-  unfold tdb_requests. destruct (nth 2 bs 0 =? FAMID).
-  - set (nc := le_val _). set (nb := le_val _). destruct f.
-    + destruct (N.ltb_spec (N.of_nat (length bs) - (16 + 4 + 4)) (nc * (4 + 4) + nb * 4)); lia.
-    + destruct (N.ltb_spec (N.of_nat (length bs) - (16 + 8 + 8)) (nc * (8 + 8) + nb * 8)); lia.
-  - set (n := le_val _). destruct (N.ltb_spec (N.of_nat (length bs) - 32) (n * 16)); lia.
+  induction n as [|n IH]; intros [|x l] H; cbn [skipn]; auto. apply IH. cbn [bytes_ok forallb] in H. apply andb_prop in H. tauto.
+Qed.
+Lemma bytes_ok_firstn : forall n l, bytes_ok l = true -> bytes_ok (firstn n l) = true.
+Proof.
+  induction n as [|n IH]; intros [|x l] H; cbn [firstn]; auto. cbn [bytes_ok forallb] in *. apply andb_prop in H as [H1 H2].
+  rewrite H1. cbn [andb]. apply IH. exact H2.
+Qed.
+Lemma bytes_ok_rev l : bytes_ok l = true -> bytes_ok (rev l) = true.
+Proof.
+  intros H. unfold bytes_ok in *. apply forallb_forall. intros x Hx. apply in_rev in Hx. rewrite forallb_forall in H. auto.
+Qed.
+
+Lemma rd_be_bytes n X v r : bytes_ok X = true -> rd_be n X = Ok (v, r) ->
+  bytes_ok r = true /\ (length r + n = length X)%nat /\ v < 256 ^ N.of_nat n.
+Proof.
+  intros Hb E. pose proof (rd_be_len _ _ _ _ E) as L. unfold rd_be in E. destruct (Nat.ltb_spec (length X) n); [discriminate|].
+  assert (Ev : v = le_val (rev (firstn n X))) by congruence. assert (Er : r = skipn n X) by congruence. subst.
+  split; [apply bytes_ok_skipn; auto|]. split; [exact L|].
+  pose proof (le_val_bound (rev (firstn n X)) (bytes_ok_rev _ (bytes_ok_firstn n X Hb))) as B.
+  rewrite rev_length, firstn_length in B. replace (Nat.min n (length X)) with n in B by lia. exact B.
+Qed.
+
+Lemma compat_req_bound bs : bytes_ok bs = true -> snd (tdb_dec_compat_req bs) <= 2 * N.of_nat (length bs) + 16 * 65535.
+Proof.
+  intros Hb. unfold tdb_dec_compat_req. cbv zeta.
+  destruct (rd_be 4 bs) as [[ty r0]| |] eqn:E0; cbn [obind2 fst snd]; try lia.
+  apply rd_be_bytes in E0 as (B0 & L0 & _); auto.
+  destruct (ty =? COMPAT_DOUBLE).
+  - destruct (rd_be 8 r0) as [[mn r1]| |] eqn:E1; cbn [obind2 fst snd]; try lia. apply rd_be_len in E1.
+    destruct (rd_be 8 r1) as [[mx r2]| |] eqn:E2; cbn [obind2 fst snd]; try lia. apply rd_be_len in E2.
+    destruct (_ || _); cbn [snd]; try lia.
+    destruct (rd_be 8 r2) as [[kb r3]| |] eqn:E3; cbn [obind2 fst snd]; try lia. apply rd_be_len in E3.
+    destruct (_ <? MINK); cbn [snd]; try lia.
+    destruct (rd_be 4 r3) as [[n r4]| |] eqn:E4; cbn [obind2 fst snd]; try lia. apply rd_be_len in E4.
+    destruct (N.ltb_spec (N.of_nat (length r4)) (n * 16)); cbn [with_req snd]; lia.
+  - destruct (ty =? COMPAT_FLOAT); cbn [snd]; try lia.
+    destruct (rd_be 8 r0) as [[mn r1]| |] eqn:E1; cbn [obind2 fst snd]; try lia. apply rd_be_bytes in E1 as (B1 & L1 & _); auto.
+    destruct (rd_be 8 r1) as [[mx r2]| |] eqn:E2; cbn [obind2 fst snd]; try lia. apply rd_be_bytes in E2 as (B2 & L2 & _); auto.
+    destruct (_ || _); cbn [snd]; try lia.
+    destruct (rd_be 4 r2) as [[kb r3]| |] eqn:E3; cbn [obind2 fst snd]; try lia. apply rd_be_bytes in E3 as (B3 & L3 & _); auto.
+    destruct (_ <? MINK); cbn [snd]; try lia.
+    destruct (rd_be 4 r3) as [[un r4]| |] eqn:E4; cbn [obind2 fst snd]; try lia. apply rd_be_bytes in E4 as (B4 & L4 & _); auto.
+    destruct (rd_be 2 r4) as [[n r5]| |] eqn:E5; cbn [obind2 fst snd]; try lia. apply rd_be_bytes in E5 as (B5 & L5 & Hn); auto.
+    cbn [with_req snd]. rewrite p2 in Hn. lia.
+Qed.
+
+Theorem tdb_requests_linear f bs : bytes_ok bs = true ->
+  tdb_requests f bs <= 2 * N.of_nat (length bs) + 16 * 65535.
+Proof.
+  intros Hb. unfold tdb_requests, tdb_dec_req. cbv zeta.
+  destruct (rd_le 1 bs) as [[pre r0]| |] eqn:E0; cbn [obind2 fst snd]; try lia. apply rd_le_len in E0.
+  destruct (rd_le 1 r0) as [[ver r1]| |] eqn:E1; cbn [obind2 fst snd]; try lia. apply rd_le_len in E1.
+  destruct (rd_le 1 r1) as [[fam r2]| |] eqn:E2; cbn [obind2 fst snd]; try lia. apply rd_le_len in E2.
+  destruct (negb (fam =? FAMID)).
+  { destruct (_ && _); cbn [snd]; [apply compat_req_bound; auto|lia]. }
+  destruct (negb (ver =? SERVER)); cbn [snd]; try lia.
+  destruct (rd_le 2 r2) as [[k r3]| |] eqn:E3; cbn [obind2 fst snd]; try lia. apply rd_le_len in E3.
+  destruct (k <? MINK); cbn [snd]; try lia.
+  destruct (rd_le 1 r3) as [[flags r4]| |] eqn:E4; cbn [obind2 fst snd]; try lia. apply rd_le_len in E4.
+  destruct (negb (pre =? _)); cbn [snd]; try lia.
+  destruct (rd_le 2 r4) as [[un r5]| |] eqn:E5; cbn [obind2 fst snd]; try lia. apply rd_le_len in E5.
+  destruct (negb (N.land flags F_EMPTY =? 0)); cbn [snd]; try lia.
+  destruct (negb (N.land flags F_SINGLE =? 0)).
+  { destruct (rd_float_le f r5) as [[v r6]| |]; cbn [obind2 fst snd]; try lia. destruct (negb _); cbn [snd]; lia. }
+  destruct (rd_le 4 r5) as [[nc r6]| |] eqn:E6; cbn [obind2 fst snd]; try lia. apply rd_le_len in E6.
+  destruct (rd_le 4 r6) as [[nb r7]| |] eqn:E7; cbn [obind2 fst snd]; try lia. apply rd_le_len in E7.
+  destruct (rd_float_le f r7) as [[mn r8]| |] eqn:E8; cbn [obind2 fst snd]; try lia. apply rd_float_len in E8.
+  destruct (rd_float_le f r8) as [[mx r9]| |] eqn:E9; cbn [obind2 fst snd]; try lia. apply rd_float_len in E9.
+  destruct (_ || _); cbn [snd]; try lia.
+  destruct f.
+  - destruct (N.ltb_spec (N.of_nat (length r9)) (nc * (4 + 4) + nb * 4)); cbn [with_req snd]; lia.
+  - destruct (N.ltb_spec (N.of_nat (length r9)) (nc * (8 + 8) + nb * 8)); cbn [with_req snd]; lia.
 Qed.
 
 (* ---------------- C18: the image size is a function of the number of centroids ---------------- *)
